@@ -91,5 +91,5 @@ def spec(tier, seed):
                 shapes.append(s)
     qs = [cert_query("c02", s, O_C02) for s in shapes]
     import c02_units
-    qs += c02_units.queries(tier)
+    qs += c02_units.queries(tier, seed)
     return {"queries": qs, "exhaustive": False, "bounds": BOUNDS, "outside": OUTSIDE, "assumptions": ASSUME}
